@@ -18,8 +18,9 @@ REPO = Path(os.environ.get("VERIF_REPO", "/repo"))
 COQ = VERIF / "coq"
 INST = VERIF / "inst"
 BUILD = VERIF / "build"
-EVIDENCE = VERIF / "evidence"
-REPLAYS = VERIF / "replays"
+SCRATCH = REPO != Path("/repo")          # a scratch tree (self-test against a seeded change)
+EVIDENCE = (BUILD / "scratch_evidence") if SCRATCH else VERIF / "evidence"
+REPLAYS = (BUILD / "scratch_replays") if SCRATCH else VERIF / "replays"
 PY = "/venv/bin/python"
 
 FORBIDDEN = re.compile(
@@ -196,7 +197,7 @@ def parse_nat_list(out: str) -> list[int]:
 
 
 def write_replay(prop: str, payload: dict) -> Path:
-    REPLAYS.mkdir(exist_ok=True)
+    REPLAYS.mkdir(parents=True, exist_ok=True)
     body = json.dumps(payload, indent=1, sort_keys=True, default=str)
     name = f"{prop}-{hashlib.sha256(body.encode()).hexdigest()[:12]}.json"
     p = REPLAYS / name
@@ -206,7 +207,7 @@ def write_replay(prop: str, payload: dict) -> Path:
 
 def write_evidence(prop: str, tier: str, seed: int, coverage: dict, wall: float, violations: int,
                    assumptions: list[str]):
-    EVIDENCE.mkdir(exist_ok=True)
+    EVIDENCE.mkdir(parents=True, exist_ok=True)
     ev = {
         "property_id": prop, "tier": tier, "seed": seed, "level": "proof",
         "coverage": coverage, "assumptions": assumptions, "wall_s": round(wall, 2),
